@@ -105,6 +105,9 @@ def population():
     objs.append(v21.Tool(id=ID('tool', 3), name='gamma', created='2020-01-01T00:00:00Z', modified='2020-01-04T00:00:00Z', labels=['a'], tool_types=['exploitation'], confidence=0, revoked=False))
     objs.append(v21.Tool(id=ID('tool', 9), name='', created='2020-01-01T00:00:00Z', modified='2020-01-04T00:00:00Z', confidence=50, revoked=True, aliases=[]))
     objs.append(v21.Malware(id=ID('malware', 4), name='delta', is_family=False, created='2020-01-02T00:00:00.000001Z', modified='2020-01-02T00:00:00.000001Z'))
+    # two more versions of it inside the same millisecond (distinct versions: a federating source must not merge them)
+    objs.append(v21.Malware(id=ID('malware', 4), name='delta-b', is_family=False, created='2020-01-02T00:00:00.000001Z', modified='2020-01-02T00:00:00.000002Z'))
+    objs.append(v21.Malware(id=ID('malware', 4), name='delta-c', is_family=True, created='2020-01-02T00:00:00.000001Z', modified='2020-01-02T00:00:00.000999Z'))
     objs.append(v21.Relationship(id=ID('relationship', 5), source_ref=ID('identity', 1), target_ref=ID('tool', 3), relationship_type='uses',
                                  created='2020-01-05T00:00:00Z', modified='2020-01-05T00:00:00Z'))
     objs.append(v21.File(id=ID('file', 6), name='f.txt', hashes={'MD5': 'a' * 32}))
